@@ -5,12 +5,14 @@ class C35(Spec):
     prop = "C35"
     drv = "drv_c35"
     harness = "h_c35"
-    required_theorems = ("C35.worker_terminates", "C35.fetch_has_deadline", "C35.concurrent_no_reask",
+    required_theorems = ("C35.worker_terminates", "C35.progress", "C35.concurrent_no_reask", "C35.event_delivers",
+                         "C35.event_needs_at_most_50_failing_peers", "C35.stale_advertised_height_never_asked",
                          "C35.delivered_right_height", "C35.servable_never_no_peer", "C35.seq_delivers", "C35.delivers",
                          "C35.concurrent_pass_can_exhaust_tries", "C35.old_reask_witness", "C35.old_wrong_height_accepted",
-                         "C35.old_fetch_had_no_deadline")
-    partial = ("C35.delivers",)
-    refuted = ("C35.concurrent_pass_can_exhaust_tries",)
+                         "C35.old_shared_index_witness")
+    partial = ("C35.delivers", "C35.event_delivers")
+    refuted = ("C35.concurrent_pass_can_exhaust_tries", "C35.event_needs_at_most_50_failing_peers",
+               "C35.stale_advertised_height_never_asked")
     level_text = ("Lean LTS of the download workers (labels = the two atomic sections of downloadBlock) of the repaired code: "
                   "every worker owns a clone of the task list and drops failed peers by identity, only the TaskNum counters are "
                   "shared, a block of another height is a failed fetch, the reply stream has a deadline. Theorems for every "
@@ -32,7 +34,11 @@ class C35(Spec):
                   "the identity for n <= 12, harness uses <= 8 peers); every fetch returns because the code arms a 30 s deadline "
                   "(observed on a fake stream that records SetDeadline calls; libp2p honouring it is runtime); 'not asked again "
                   "within the same task' is read per downloadBlock pass: checkTask deliberately starts over with all peers.")
-    assumptions = ("Go append within capacity writes the shared backing array in place",
+    assumptions = ("delivery (delivers / event_delivers): at most 50 peers in the task (p2p hands out at most 41) and every peer's "
+                   "advertised height covers the request — both hypotheses are necessary (witnesses)",
+                   "distinct Pids in the request (initJob does not deduplicate; peers are modelled as list positions)",
+                   "time is not modelled: the stream deadline is a source fact observed on a fake stream, not a theorem",
+                   "Go append within capacity writes the shared backing array in place",
                    "equal peer latencies (no latency samples in the peerstore)",
                    "libp2p streams honour SetDeadline")
     quick_timeout = 900
